@@ -211,6 +211,41 @@ func checkC04(e *Engine, r *Report) {
 							}
 						})
 						r.Check("R1:updates-used@"+site, "data-flow updates applied", "the updates map from "+name+" is applied in a loop", e.InstrPos(in), fn, true, "ranged over", true)
+						// … on every path on which the call succeeded
+						if next != nil {
+							var errEx ssa.Value
+							for _, ref := range *call.Referrers() {
+								if ex, ok := ref.(*ssa.Extract); ok && isErrorType(ex.Type()) {
+									errEx = ex
+								}
+							}
+							succeeded := func(cond ssa.Value) (bool, bool) {
+								b, ok := cond.(*ssa.BinOp)
+								if !ok || (b.Op != token.EQL && b.Op != token.NEQ) || errEx == nil {
+									return false, false
+								}
+								isErr := func(v ssa.Value) bool {
+									hit := false
+									Origins(v, func(x ssa.Value) bool {
+										if x == errEx {
+											hit = true
+										}
+										return hit
+									})
+									return hit
+								}
+								for _, pr := range [][2]ssa.Value{{b.X, b.Y}, {b.Y, b.X}} {
+									if k, isK := pr[1].(*ssa.Const); isK && k.IsNil() && isErr(pr[0]) {
+										return true, b.Op == token.EQL
+									}
+								}
+								return false, false
+							}
+							bp := FindPath(PathQuery{Fn: ranged.Parent(), From: in, Assume: succeeded, Block: func(x ssa.Instruction) bool { return x == ssa.Instruction(ranged) },
+								Target: func(x ssa.Instruction) bool { _, ok := x.(*ssa.Return); return ok }})
+							r.Check("R1:updates-applied-on-every-success-path@"+site, "data-flow updates applied", "whenever "+name+" succeeded, the function does not return before the loop that applies the other containers' new zones", e.InstrPos(in), fn, bp == nil,
+								"returns without applying the updates: "+e.pathString(bp), true)
+						}
 						r.Check("R1:updates-pinned@"+site, "data-flow updates applied", "each updated container is told its new node mask (SetCpusetMems(entry.MemsetString()))", e.InstrPos(ranged), fn, pinned, "", true)
 						r.Check("R1:updates-addressed@"+site, "data-flow updates applied", "the container told is the one the update entry is keyed by", e.InstrPos(ranged), fn, keyed, "", true)
 						// no entry is skipped: from one iteration to the next every path passes the sink, unless the keyed
